@@ -265,13 +265,16 @@ impl<'a, T: AsRef<str>> Tokenizer<'a, T> {
         }
 
         if let Some(pos) = latest_pos {
-            if let Ok(number) = digits.parse::<f64>() {
-                self.index += pos;
-                Some(Ok(Token::NumericLiteral(number)))
-            } else {
-                Some(Err(TokenizationError::InvalidNumber(
+            // Numbers with too many digits overflow to infinity, which can't be
+            // represented as a numeric literal (it would be listed as `inf`).
+            match digits.parse::<f64>() {
+                Ok(number) if number.is_finite() => {
+                    self.index += pos;
+                    Some(Ok(Token::NumericLiteral(number)))
+                }
+                _ => Some(Err(TokenizationError::InvalidNumber(
                     self.index..self.index + pos,
-                )))
+                ))),
             }
         } else {
             None
